@@ -121,7 +121,7 @@ def main():
             src = open(src_path).read()
             try:
                 func = py2coq._find_func(ast.parse(src), spec["qual"])
-                stmts = py2coq.select(func, spec.get("start"), spec.get("end"))
+                stmts = py2coq.select(func, spec.get("start"), spec.get("end"), spec.get("nth"), spec.get("of"))
             except Exception as e:
                 rep["specs"][spec["name"]] = {"error": str(e)}
                 continue
